@@ -23,7 +23,7 @@ pub fn def() -> CheckDef {
 fn meta(_ctx: &Ctx) -> Meta {
     Meta {
         level: "exploration",
-        rule: "(a) signature headers synthesised by the harness encoder around real header + payload bytes: the product of OpenPGP tag {absent, string array with 0..3 base64 items, malformed / empty base64, wrong data types} x RSA / DSA / legacy-PGP tags {absent, binary, wrong type} x digest tags {none, correct, wrong} x verifier scripts {all accept, reject at call 1..4, all reject}; a recording implementation of the public Verifying trait logs every call (hash + length of the data, signature bytes); success is judged against the log: >= 1 call, no rejected call, every call handed exactly header (or header+payload for the legacy tag) bytes with a signature taken from the package, all recorded digests matching. (b) packages built and signed by the library with RSA-4096, protected RSA-3072, Ed25519 and ECDSA-P256 keys: every single-bit flip of the main header and of (a bounded part of) the payload plus seeded multi-byte edits, run in worker processes with the real pgp verifier; a mutant that parses to a different value must not verify. distinct_nontrivial = distinct (shape, script) executions that returned Ok or had calls + distinct mutants that parsed to a changed value".into(),
+        rule: "(a) signature headers synthesised by the harness encoder around real header + payload bytes: the product of OpenPGP tag {absent, string array with 0..3 base64 items, malformed / empty base64, wrong data types} x RSA / DSA / legacy-PGP tags {absent, binary, wrong type} x digest tags {none, correct, wrong} x verifier scripts {all accept, reject at call 1..4, all reject}; a recording implementation of the public Verifying trait logs every call (hash + length of the data, signature bytes); success is judged against the log: >= 1 call, no rejected call, every call handed exactly header (or header+payload for the legacy tag) bytes with a signature taken from the package, all recorded digests matching. (b) packages built and signed by the library with RSA-4096, protected RSA-3072, Ed25519 and ECDSA-P256 keys: every single-bit flip of the main header and of (a bounded part of) the payload plus seeded multi-byte edits; for gzip / zstd / xz / bzip2 payloads in addition every bit of the first 24 and last 16 bytes of the compressed stream (member / frame / stream headers and trailers) and bytes appended after the payload (zeros, text, an empty second member); run in worker processes with the real pgp verifier; a mutant that parses to a different value must not verify. distinct_nontrivial = distinct (shape, script) executions that returned Ok or had calls + distinct mutants that parsed to a changed value".into(),
         assumptions: vec!["pgp crate verifies correctly; signature blobs in part (a) are opaque to the recording verifier".into()],
         floor_distinct: 500,
     }
@@ -304,8 +304,13 @@ fn run(ctx: &Ctx, rep: &Report) {
     let mut rng = Rng::for_case(ctx.seed, "C02-b", 0);
     let nbases = ctx.tier.pick(1, 9);
     for (ki, key) in keys.iter().enumerate() {
-        for bn in 0..nbases {
-            let mut cfg = BuildCfg { name: format!("signed{bn}"), version: "1.0".into(), license: "MIT".into(), arch: "noarch".into(), summary: "signed package".into(), compression: Some((["none", "gzip", "zstd"][bn % 3].into(), 3)), source_date: Some(1_600_000_000), ..Default::default() };
+        // bases 0..nbases get every kind of modification; the bases after them (one per compressor;
+        // in the quick tier only for the fastest key) get the payload and "envelope" modifications only
+        let envelope_bases = if thorough || key.name == "ed25519" { 4 } else { 0 };
+        for bn in 0..nbases + envelope_bases {
+            let envelope_only = bn >= nbases;
+            let comp = if envelope_only { ["gzip", "zstd", "xz", "bzip2"][bn - nbases] } else { ["none", "gzip", "zstd"][bn % 3] };
+            let mut cfg = BuildCfg { name: format!("signed{bn}"), version: "1.0".into(), license: "MIT".into(), arch: "noarch".into(), summary: "signed package".into(), compression: Some((comp.into(), 3)), source_date: Some(1_600_000_000), ..Default::default() };
             if bn != 1 {
                 cfg.files.push(FileCfg { dest: "/etc/signed.conf".into(), content_kind: "text".into(), size: 200 + 500 * bn, content_seed: 7, mode: Some(0o100644), source_perm: 0o644, user: None, group: None, flags: vec![], caps: None, symlink: None, mtime: 1_500_000_000, verify: None });
             }
@@ -332,7 +337,7 @@ fn run(ctx: &Ctx, rep: &Report) {
             };
             // every bit of the main header (RSA verification is slow: the quick tier strides)
             let stride = if !thorough && key.name.starts_with("rsa") { 3 } else { 1 };
-            let mut byte = p.hdr.start;
+            let mut byte = if envelope_only { p.hdr.end } else { p.hdr.start };
             while byte < p.hdr.end {
                 for bit in 0..8 {
                     let mut m = bytes.clone();
@@ -350,8 +355,33 @@ fn run(ctx: &Ctx, rep: &Report) {
                 m[p.payload_start + bitpos / 8] ^= 1 << (bitpos % 8);
                 push(m, format!("payload bit {bitpos}"), &mut cases);
             }
+            // the envelope of the compressed stream: every bit of its first 24 and last 16 bytes (gzip
+            // member header incl. MTIME/XFL/OS, zstd frame header, xz stream header/footer, bzip2
+            // header/trailer), and bytes appended after its end (trailing garbage, a zero byte, a
+            // second empty member of the same format)
+            if plen > 0 {
+                let mut pos: Vec<usize> = (0..plen.min(24)).chain(plen.saturating_sub(16)..plen).collect();
+                pos.sort();
+                pos.dedup();
+                for i in pos {
+                    for bit in 0..8 {
+                        let mut m = bytes.clone();
+                        m[p.payload_start + i] ^= 1 << bit;
+                        push(m, format!("envelope byte {i} of {plen} bit {bit}"), &mut cases);
+                    }
+                }
+            }
+            let empty_member = if plen >= 2 && bytes[p.payload_start] == 0x1f && bytes[p.payload_start + 1] == 0x8b { mcpio_compress("gzip") } else if plen >= 4 && bytes[p.payload_start..p.payload_start + 4] == [0x28, 0xb5, 0x2f, 0xfd] { mcpio_compress("zstd") } else if plen >= 6 && bytes[p.payload_start..p.payload_start + 6] == [0xfd, b'7', b'z', b'X', b'Z', 0] { mcpio_compress("xz") } else { Vec::new() };
+            for tail in [vec![0u8], vec![0u8; 4], b"\n".to_vec(), b"trailing garbage".to_vec(), vec![0u8; 512], empty_member] {
+                if tail.is_empty() {
+                    continue;
+                }
+                let mut m = bytes.clone();
+                m.extend_from_slice(&tail);
+                push(m, format!("appended {} bytes after the payload", tail.len()), &mut cases);
+            }
             // multi-byte edits in header and payload
-            for _ in 0..ctx.tier.pick(500, 20_000) {
+            for _ in 0..if envelope_only { ctx.tier.pick(50, 2000) } else { ctx.tier.pick(500, 20_000) } {
                 let mut m = bytes.clone();
                 let n = 1 + rng.usize(6);
                 for _ in 0..n {
@@ -407,6 +437,10 @@ fn run(ctx: &Ctx, rep: &Report) {
     if rep.get_count("a.verifier_calls_observed") == 0 {
         rep.inconclusive("the recording verifier was never called");
     }
+}
+
+fn mcpio_compress(comp: &str) -> Vec<u8> {
+    crate::model::cpio::compress(comp, b"")
 }
 
 fn replay(ctx: &Ctx, w: &serde_json::Value, rep: &Report) {
